@@ -160,6 +160,127 @@ def hook_part(ctx, rep, report):
             elif line != strip_py(want):
                 report(rep, "ingest:line-not-stripped", "line is not the raw line without its escape sequences",
                        dict(kind="ingest-hook", cfg=cfg, line=l, got=line.decode("utf-8", "replace")))
+    invalid_hook_part(ctx, rep, report, hook, mdl)
+
+
+# ------------------------------------------------------------------ invalid UTF-8
+
+INVALID = [b"\xff", b"\x80", b"\xbf\x80", b"\xe6\x97", b"\xf0\x9f\x99", b"\xc3", b"\xed\xa0\x80", b"\xc0\xaf", b"\xfe\xfe"]
+PIECES = [b"a", b"bc", b" ", "é".encode(), "日本".encode(), b"x=1;", b"word"]
+WRAPS = [(b"", b""), (b"\x1b[31m", b"\x1b[m"), (b"\x1b[1;32m", b"\x1b[0m"), (b"\x1b]8;;file:///x\x1b\\", b"\x1b]8;;\x1b\\"),
+         (b"\x1b[38;5;208m", b"\x1b[39m\x1b[m")]
+
+
+def gen_invalid_line(rng):
+    """A line that is not valid UTF-8: text pieces with invalid byte sequences between them, optionally
+    wrapped in SGR / OSC 8 sequences. No `\r`."""
+    open_, close = rng.choice(WRAPS)
+    parts = []
+    for _ in range(rng.randint(1, 6)):
+        parts.append(rng.choice(PIECES))
+        if rng.random() < 0.6:
+            parts.append(rng.choice(INVALID))
+    body = b"".join(parts)
+    if not any(p in INVALID for p in parts):
+        body += rng.choice(INVALID)
+    return rng.choice([b"", b"log: "]) + open_ + body + close
+
+
+def lossy(b):
+    """`String::from_utf8_lossy` as the harness understands it (U+FFFD per maximal invalid sequence)."""
+    return b.decode("utf-8", "replace").encode("utf-8")
+
+
+def ends_default(b):
+    """After the last SGR sequence of the line the rendition is the default one, and no OSC 8 link is open."""
+    styled = False
+    for m in re.finditer(rb"\x1b\[([0-9;:]*)m", b):
+        p = m.group(1)
+        styled = not (p in (b"", b"0") or p.endswith(b";0"))
+        if p in (b"39", b"49") and not styled:
+            styled = False
+    link = False
+    for m in OSC.finditer(b):
+        body = m.group(0)
+        if body.startswith(b"\x1b]8;"):
+            link = not re.match(rb"\x1b\]8;[^;]*;(\x07|\x1b\\)", body)
+    return not styled and not link
+
+
+def check_invalid(rep, report, where, max_len, raw, raw_line, line, case):
+    """Direct oracle for a line with invalid UTF-8: nothing is lost at limit 0 (or when it fits); when cut, the
+    truncation mark is shown, the kept text is a prefix of the text, and the line ends in the default rendition."""
+    want = lossy(raw)
+    text = strip_py(want)
+    if raw_line == want:
+        pass        # kept whole (the byte length may exceed the limit while the display width does not)
+    elif max_len == 0 or len(want) <= max_len:
+        if raw_line != want:
+            report(rep, "ingest:invalid-utf8:text-lost" + where, "a line with invalid UTF-8 is not ingested as its lossy conversion",
+                   dict(case, kind="ingest-invalid" + where, got=repr(raw_line), want=repr(want)))
+            return
+    else:
+        vis = strip_py(raw_line)
+        arrow = "→".encode()
+        if arrow not in vis:
+            report(rep, "ingest:invalid-utf8:cut-without-mark" + where, "an over-long line with invalid UTF-8 is cut without the truncation symbol",
+                   dict(case, kind="ingest-invalid" + where, got=repr(raw_line)))
+            return
+        kept = vis[:vis.rindex(arrow)].rstrip(b" ")
+        if not text.startswith(kept):
+            report(rep, "ingest:invalid-utf8:text-altered" + where, "the kept part of a truncated line is not a prefix of its text",
+                   dict(case, kind="ingest-invalid" + where, got=repr(raw_line), text=repr(text)))
+            return
+    if ends_default(want) and not ends_default(raw_line):
+        report(rep, "ingest:invalid-utf8:unbalanced" + where, "an ingested line leaves a rendition / link open that the input closed",
+               dict(case, kind="ingest-invalid" + where, got=repr(raw_line)))
+        return
+    if line is not None and line != strip_py(raw_line):
+        report(rep, "ingest:invalid-utf8:line-not-stripped" + where, "line is not raw_line without its escape sequences",
+               dict(case, kind="ingest-invalid" + where, got=repr(line)))
+
+
+def invalid_hook_part(ctx, rep, report, hook, mdl):
+    rng = ctx.rng
+    for max_len in (0, 5, 12, 40):
+        cfgline = "cfg " + " ".join(hx(a) for a in ["--max-line-length", str(max_len)])
+        raws = [gen_invalid_line(rng) for _ in range(ctx.n(25, 200))] + [b"a\xffb", b"\x1b[31ma\xffb\x1b[m", b"\xff" * 9]
+        ans = hook.ask([cfgline, "machine.ingest_cfg"] + ["machine.ingest x" + r.hex() for r in raws], sticky=[0])
+        c = ans[1].split()
+        ml, symb = int(c[1]), (unhx(c[2]) if len(c) > 2 else b"")
+        tr = hook.ask([cfgline, f"ansi.truncate {hx(symb)} {ml} x 1"], sticky=[0])[1]
+        symt = unhx(tr[3:]) if tr.startswith("ok x") else b""
+        wt, gt = tables_for(hook, [symb, symt] + [lossy(r) for r in raws])
+        tf = table_fields(wt, gt)
+        model = mdl.ask([f"ingest.lossy {ml} {hx(symb)} {hx(lossy(r))} {tf}" for r in raws]) if mdl else [None] * len(raws)
+        for r, i, m in zip(raws, ans[2:], model):
+            rep.case(key=("ingest-invalid", ml, r), nontrivial=True,
+                     sample=dict(op="machine.ingest (invalid UTF-8)", max_line_length=ml, line=repr(r), impl=i))
+            rep.count("ingest:invalid:max=%d" % ml)
+            if m is not None:
+                rep.corr_case("machine.ingest(invalid)", i == m or (i.startswith("PANIC") and m.startswith("PANIC")),
+                              dict(max_line_length=ml, line=repr(r), impl=i, model=m))
+            if not i.startswith("ok"):
+                report(rep, "ingest:panic", "ingest_line panicked", dict(kind="ingest-invalid:hook", max_len=ml, raw=r.hex(), got=i))
+                continue
+            f = i.split()
+            check_invalid(rep, report, ":hook", ml, r, unhx(f[1]), unhx(f[2]), dict(max_len=ml, raw=r.hex()))
+
+
+def invalid_binary_case(ctx, rep, report, case):
+    max_len = case["max_len"]
+    raws = [bytes.fromhex(x) for x in case["raws"]]
+    rc, out, err = ctx.run_delta(["--no-gitconfig", "--max-line-length", str(max_len)], b"\n".join(raws) + b"\n")
+    rep.case(key=("ingest-invalid-bin", max_len, tuple(case["raws"])), nontrivial=True,
+             sample=dict(op="binary pass-through (invalid UTF-8)", max_line_length=max_len, first=repr(raws[0])))
+    rep.count("ingest:invalid:binary")
+    if rc != 0:
+        report(rep, "ingest:exit-status", f"delta exit status {rc}", dict(kind="ingest-invalid:binary", **case))
+        return
+    got = out.split(b"\n")
+    for n, r in enumerate(raws):
+        g = got[n] if n < len(got) else b""
+        check_invalid(rep, report, ":binary", max_len, r, g, None, dict(case, row=n))
 
 
 def binary_case(ctx, rep, report, case):
@@ -229,12 +350,21 @@ def ingest_check(ctx, rep, report=None):
             return g
     shim = Shim()
     parallel_map(lambda c: binary_case(ctx, shim, report, c), cases)
+    icases = [dict(max_len=ml, raws=[gen_invalid_line(rng).hex() for _ in range(rng.randint(2, 6))] + [b"a\xffb".hex()])
+              for ml in (0, 5, 12, 40) for _ in range(ctx.n(6, 80))]
+    parallel_map(lambda c: invalid_binary_case(ctx, shim, report, c), icases)
 
 
 def ingest_replay(ctx, rep, case):
     """Replay of a violation recorded by this module (`kind` = ingest-binary / ingest-hook)."""
     def report(rep, signature, what, replay):
         rep.violation(signature, what, replay)
+    if str(case.get("kind", "")).startswith("ingest-invalid"):
+        if "raws" in case:
+            invalid_binary_case(ctx, rep, report, dict(max_len=case["max_len"], raws=case["raws"]))
+        else:
+            ingest_check(ctx, rep)
+        return
     if case.get("kind") == "ingest-binary":
         c = case["case"]
         binary_case(ctx, rep, report, dict(lines=[tuple(x) for x in c["lines"]], max_len=c["max_len"]))
